@@ -126,6 +126,16 @@ def run(F, rep, tier):
                                                        "between compilations" if (mutable or interior) else " is immutable data"),
                        fn["sp"])
     rep.ob("GLOBAL-STATE", "census", True, "%d static items of the four compile-path crates enumerated" % n_static, sites=n_static)
+    # "independent of how many compilations ran before": the one piece of state that does survive a compilation is the output
+    # file itself - it has to be opened so that nothing of an earlier, longer output is left behind (the C20 instance)
+    import core
+    import c20
+    scratch = core.Report("_", "quick")
+    c20.atomic(F, scratch)
+    for o in scratch.obs:
+        if o["rule"] == "ATOMIC" and o["key"] == "output-truncated":
+            rep.obs.append(o)
+            rep.sites += 1
 
 
 def _short(t):
